@@ -3,6 +3,7 @@ module verif/harness
 go 1.23
 
 require (
+	github.com/gorilla/websocket v1.4.2
 	github.com/jirenius/timerqueue v1.0.0
 	github.com/posener/wstest v1.2.0
 	github.com/resgateio/resgate v0.0.0
@@ -10,7 +11,6 @@ require (
 
 require (
 	github.com/bsm/openmetrics v0.3.1 // indirect
-	github.com/gorilla/websocket v1.4.2 // indirect
 	github.com/rs/xid v1.3.0 // indirect
 )
 
